@@ -23,7 +23,7 @@ func init() {
 		Rule: "seeded histories of 3..14 operations on up to three instances (Absorb of 1..6 blocks split over several calls, Squeeze of 1..4 blocks in several calls with 1..64 destination lanes, Clone at any point with the two copies continued differently, Reset followed by new absorbs, rejected calls with batch 0/65 or a length that is no multiple of 243) with batch sizes 1..64 (emphasis 1, 2, 63, 64) and trit contents random / all 0 / all 1 / all -1 / lanes identical but one trit / one hot lane; every squeezed lane is compared with a single-lane model sponge fed that lane's input alone; rejected calls must return the documented error and leave CopyState unchanged; Reset must give the CopyState of a fresh instance; a clone's state equals the original's and later operations on one do not change the other. Run under the default (assembly) and the purego build; the output digests of the two builds must be equal. " +
 			"Non-trivial: distinct histories with batch size < 64, or >= 2 absorb calls, or >= 2 squeeze calls, or a clone/reset.",
 		Assumptions: []string{"the single-lane Curl-P-81 model in harness/oracle/curlp (self-tested on published Curl-P-81 hashes incl. multi-block absorb and squeeze)", "absorb-after-squeeze (documented panic) and lanes beyond the absorbed batch are outside the statement and not judged"},
-		Builds:      []string{"default", "purego"},
+		Builds:      []string{"default", "purego", "386"},
 		SelfTest:    curlp.SelfTest,
 		Gen:         gen,
 		Judge:       judge,
@@ -58,6 +58,9 @@ type history struct {
 	seed  uint64
 }
 
+// maxBatch is the number of lanes: 64 on 64-bit targets, 32 in the 386 build.
+const maxBatch = curl.MaxBatchSize
+
 func pickBatch(r *rand.Rand) int {
 	switch r.Intn(8) {
 	case 0:
@@ -65,11 +68,11 @@ func pickBatch(r *rand.Rand) int {
 	case 1:
 		return 2
 	case 2:
-		return 63
+		return maxBatch - 1
 	case 3, 4:
-		return 64
+		return maxBatch
 	default:
-		return 1 + r.Intn(64)
+		return 1 + r.Intn(maxBatch)
 	}
 }
 
@@ -90,7 +93,7 @@ func build(seed uint64) *history {
 		case k < 7:
 			lanes := h.batch
 			if r.Intn(3) == 0 {
-				lanes = 1 + r.Intn(64)
+				lanes = 1 + r.Intn(maxBatch)
 			}
 			h.ops = append(h.ops, op{kind: "squeeze", inst: i, blocks: 1 + r.Intn(3), lanes: lanes})
 			squeezing[i] = true
@@ -292,7 +295,7 @@ func judge(class string, key []byte, o *fw.Obs) {
 			case 0:
 				lanes = 0
 			case 1:
-				lanes = 65
+				lanes = maxBatch + 1
 			case 2:
 				n += 1 + r.Intn(242)
 			default:
@@ -332,10 +335,10 @@ func judge(class string, key []byte, o *fw.Obs) {
 		// independence: an operation on one instance must not change the others
 		_ = step
 	}
-	if h.batch < 64 {
+	if h.batch < maxBatch {
 		o.Count("partial batch histories")
 	}
-	if h.batch < 64 || nAbs >= 2 || nSq >= 2 || nSpecial > 0 {
+	if h.batch < maxBatch || nAbs >= 2 || nSq >= 2 || nSpecial > 0 {
 		o.Nontrivial()
 	}
 }
